@@ -473,11 +473,13 @@ Theorem C01_lost_read_two_deployed_refuted :
 Proof. exact SeqRead.lost_read_two_deployed_refuted. Qed.
 Print Assumptions C01_lost_read_two_deployed_refuted.
 
-(* Known finding K14 — Install.availableName takes a FAILED history lookup for "no such release":
-   here an empty answer IS what the unchanged code computes with.  2:superseded 3:deployed (revision 1
-   pruned); install with its name check (read 0) lost reports success with a new revision 1 — below
-   the highest one — and two deployed revisions.  The harness replays it with a real injected read
-   error (C01:install-after-lost-name-check). *)
+(* Finding K14 (repaired in /repo; this theorem stays as the refutation of the code BEFORE the
+   repair) — Install.availableName took a FAILED history lookup for "no such release": there an empty
+   answer WAS what the code computed with.  2:superseded 3:deployed (revision 1 pruned); install with
+   its name check (read 0) lost reported success with a new revision 1 — below the highest one — and
+   two deployed revisions.  The harness replays the history with a real injected read error: the
+   repaired install returns that error and leaves the ledger as it was (the signature
+   C01:install-after-lost-name-check stays for the case that the step comes back). *)
 Theorem C01_lost_name_check_refuted :
   Contain.statuses (w_led (SeqRead.world_of SeqRead.nc_prefix)) = [(2, SSuperseded); (3, SDeployed)] /\
   (let '(w, out, _) := run_store_op "rel" "default" (mkOp SeqRead.nc_op (mkSF None None) (mkCF None None false))
